@@ -1,15 +1,23 @@
 """C01 — every beacon a node stores or serves is publicly verifiable."""
 import glob, json, os
-from .. import core, agg
+from .. import core, agg, httpw
 
 ID = "C01"
-MODULE = "DrandProofs.C01"
+MODULE = "DrandProofs.C01Http"   # imports DrandProofs.C01 (node model) and DrandProofs.C14Http (HTTP waiter invariant)
+DEPENDS = ["C18"]  # the base store answers as a sorted map: re-checked with this property (check, P5b)
 THEOREMS = ["Drand.Beacon." + t for t in [
     "c01_store_valid", "c01_write_paths_verified", "c01_preimage_binds", "c01_digest_binds", "c01_unchained_ignores_prev",
     "c01_served_from_store", "c01_served_valid", "c01_randomness", "c01_randomness_exits", "c01_exact_round",
     "c01_missing_round_is_error", "c01_bootstrap_verified", "tie_bootstrap", "c01_sync_writes_in_order", "c01_sync_first_is_next", "tie_broadcastNextPartial", "stack_put_spec", "put_inv", "aggCheck_candidate", "step_inv", "run_inv", "init_inv",
     "tie_digest_names", "tie_digest_layouts", "tie_scheme_store_chained", "tie_verifyBeacon", "tie_randomness",
-    "tie_tryNode", "tie_tryAppend", "tie_aggregator", "tie_callbackPut", "tie_publicRand"]]
+    "tie_tryNode", "tie_tryAppend", "tie_aggregator", "tie_callbackPut", "tie_publicRand"]] + ["Drand.Http." + t for t in [
+    # the public HTTP interface: waiter / watch logic of handler/http (model Drand/Http/Waiters.lean)
+    "inv_run", "rinv_step", "rinv_runFrom",
+    "c01_http_waiter_exact", "c01_http_notify_exact", "c01_http_waiter_exact_partial",
+    "c01_http_200_is_round", "c01_http_200_from_watcher", "c01_http_200_partial",
+    "c01_http_empty200_counterexample", "c01_http_wrong_round_counterexample", "c01_http_latest",
+    "tie_block_guards", "tie_unexpected_round", "tie_unexpected_payload", "tie_public_rand_decision", "tie_after_waiting",
+    "tie_recv_branch", "tie_variant", "tie_notify_region", "tie_fail_region", "tie_eval_regions", "tie_cancel_branch", "tie_waiter_channel"]]
 TRUSTED = ["Lean 4 kernel; axioms per theorem under coverage.axioms",
            "cryptography is an oracle record (VerifyPartial, VerifyRecovered, Recover, SignPartial, the digest hash, sha256): the theorems hold for every oracle; "
            "explicit hypotheses: KeyConst (every polynomial the vault is switched to commits to the chain key — C07), CollisionFreeOn (only for c01_digest_binds)",
@@ -19,7 +27,14 @@ TRUSTED = ["Lean 4 kernel; axioms per theorem under coverage.axioms",
            "harness engine 'agg': a real beacon.Handler (node 0 of a real group, real shares of a real polynomial, 5 schemes, trimmed bolt / memdb behind a logging wrapper, "
            "fake clock, in-memory ProtocolClient), real SyncManager.tryNode, beacon.SyncChain, core.BeaconProcess.PublicRand / PublicRandStream and core.Proxy(…).Get through export shims; "
            "packets are labelled with the real verifier's answers computed independently of the node; Go goroutine/channel semantics are modelled as explicit events",
-           "kyber (tBLS verification, Recover), not verified; HTTP handler (handler/http) not exercised: its Get path is drandProxy.Get, its waiter logic is outside this check"]
+           "kyber (tBLS verification, Recover), not verified",
+           "HTTP interface: the waiter / watch logic of handler/http/server.go is the small-step model Drand/Http/Waiters.lean (goroutines = explicit events, "
+           "sync.RWMutex = a holder field, chan []byte of capacity 1 = Option; Go scheduler, mutex and channel semantics are modelled, not verified); the watch stream and the "
+           "client's answers are universally quantified; 'the client answers Get(r) with round r' is the explicit hypothesis GetExact of c01_http_200_is_round (for the node's own "
+           "client it is c01_exact_round + drandProxy.Get); go2lean extractor tools/go2lean/httpw.go (guard expressions translated, lock regions and select branches as statement text, tied by rfl/decide); "
+           "harness engine 'httpw': the real DrandHandler (instrumented mux, ServeHTTP via httptest) with a scripted fake client.Client, one child process per script; in-package export shim "
+           "harness/export/handler/http/zz_verif_export.go (TryRLock reads of latestRound / pending, a gate channel registered in front of the waiters to hold the watcher inside its loop); "
+           "HTTP caching headers, TLS and the REST listener are not modelled (the listener is exercised by C14's dispatch engine)"]
 ASSUMPTIONS = ["reshares keep the distributed public key (KeyConst; C07)",
                "every write of the node goes through the callback store of newChainStore (aggregator, tryNode); the repair path (CorrectPastBeacons) is C10's"]
 
@@ -144,12 +159,25 @@ def summarise(seqs, res, stats, rule):
     dist["unconfirmed_on_rerun"] = stats["unconfirmed"]
     if stats.get("flaky_examples"):
         dist["nondeterministic_examples"] = stats["flaky_examples"][:3]
-    res.cov.update(evaluations=total, distinct_nontrivial=len(nontriv), traces_validated_against_impl=stats["validated"], rule=rule, distribution=dist)
+    hw = res.cov.get("http_waiters", {})
+    res.cov.update(evaluations=total + hw.get("evaluations", 0), distinct_nontrivial=len(nontriv) + hw.get("distinct_nontrivial", 0),
+                   traces_validated_against_impl=stats["validated"] + hw.get("traces_validated_against_impl", 0), rule=rule, distribution=dist)
     sm = []
     for s in seqs[:3]:
         if s.impl:
             sm.append({"ops": s.ops[:8], "impl": [x[:160] for x in s.impl[:8]]})
     res.cov["samples"] = sm
+
+
+def replay_http(ctx, res, c):
+    """./check C01 --replay f for a replay file of engine httpw"""
+    s = httpw.Script(c["ops"], {"kind": "replay"})
+    httpw.run_impl([s], workers=1, timeout=300)
+    res.cov.update(evaluations=len(s.ops), rule="replay of " + ctx["replay"], samples=[{"ops": s.ops, "impl": s.impl}])
+    hit = httpw.oracle_c01(s)
+    if hit:
+        i, code, why, sig = hit
+        res.report(sig, {"engine": "httpw", "kind": "impl-violates", "ops": s.ops[: i + 1], "observed": s.impl[: i + 1], "oracle": why})
 
 
 def explore(ctx, res):
@@ -158,8 +186,14 @@ def explore(ctx, res):
     stats = {"flaky": 0, "unconfirmed": 0, "validated": 0}
     if ctx.get("replay"):
         c = json.load(open(ctx["replay"]))
+        if c.get("engine") == "httpw":
+            return replay_http(ctx, res, c)
         seqs = [agg.Seq(c["ops"], {})]
     else:
+        # the public HTTP interface first (seconds): waiter / watch logic of handler/http on the real handler
+        httpw.explore_http(ctx, res, ID)
+        if any(f for _, f in res.violations) and ctx["deep"]:
+            return
         seqs = load_corpus() + gen_all(rng, tier)
     agg.run_impl(seqs)
     if ctx["model_ok"]:
